@@ -1010,7 +1010,33 @@ func exxGenUnsupported(c *Ctx) *exxIn {
 	return in
 }
 
+// exxGenForeign: a CloneSet / Deployment / DaemonSet under a style no arm of getReleaseController serves for it: the
+// StatefulSet-like control is built for it (finding stsPlaneForeignKind)
+func exxGenForeign(c *Ctx) *exxIn {
+	var in *exxIn
+	switch c.Rng.Intn(3) {
+	case 0:
+		in = exxGenCS(c)
+		in.Style = "Other"
+	case 1:
+		in = exxGenPDep(c)
+		in.Style = "Other"
+	default:
+		for {
+			in = exxGenSts(c)
+			if in.Kind == "daemonSet" {
+				break
+			}
+		}
+		in.Style = pickS(c, "BlueGreen", "Other")
+	}
+	return in
+}
+
 func genExecutorXCase(c *Ctx) *exxIn {
+	if c.Rng.Intn(60) == 0 {
+		return exxGenForeign(c)
+	}
 	switch c.Rng.Intn(20) {
 	case 0, 1, 2:
 		return exxGenCS(c)
